@@ -153,6 +153,8 @@ def match_known(mod, case, out, known):
         m = k.get('match', {})
         if 'kind_prefix' in m and not out.kind.startswith(m['kind_prefix']):
             continue
+        if 'kind_prefixes' in m and not any(out.kind.startswith(x) for x in m['kind_prefixes']):
+            continue
         if 'where' in m and m['where'] not in out.where:
             continue
         pn = m.get('predicate')
